@@ -64,6 +64,8 @@ def run(ctx: Check) -> int:
     ctx.extra["fix"] = FIX
     ctx.assumptions = ["UOD command requests come from the interpreter (method or injected code), one node per request",
                        "command arguments parse", "at most one of Start/Stop/Restart in flight",
+                       "the paused flag of the run state is an input of the model (Pause/Unpause: model M1); an exception "
+                       "in the command phase sets it, Start/Stop/Restart clear it",
                        "no UOD request arrives while the engine is stopping (the interpreter does not tick then)"]
     return ctx.finish()
 
